@@ -388,12 +388,33 @@ theorem determine_format_truncation_counterexample :
 
 open SparseV.Own
 
+/-- **code_has_every_edge.** The keep-alive edges READ OFF THE SOURCE (`SparseV.Gen.mlirHoldViews`, `mlirHoldInputs`,
+`mlirFromArraysOwns`, regenerated from `formats.py` / `_conversions.py` by tools/tables.d/C20.py on every run) are:
+`_hold_ref(storage, arr)` for every source array of a non-owning storage, `_hold_ref(view, storage)` for every view of an
+OWNING storage AND for every view of a NON-OWNING storage, hung on the array at the bottom of NumPy's base chain
+(`mlirHoldOnBaseRoot`: the `while isinstance(arr.base, np.ndarray)` walk), and conversions build non-owning storages.  Every ownership
+theorem below is about `Cfg.code`; it goes through this equation, so it stops checking when an edge becomes conditional. -/
+theorem code_has_every_edge : Cfg.code = Cfg.full := by decide
+
+/-- the invariants after any history of the code as it is -/
+theorem code_invariants (cs : List Cmd) (h : Heap) (hex : ExcludedHistory cs = false)
+    (hr : run Cfg.code Heap.empty cs = some h) : WF h ∧ Shape h := by
+  rw [code_has_every_edge] at hr
+  exact ⟨run_WF cs hex WF.empty hr, run_Shape cs hex WF.empty Shape.empty hr⟩
+
 /-- **reachable_correct.** The one-pass marking the executable model (and the harness comparison)
 uses is graph reachability from the program's references. -/
 theorem reachable_correct (cs : List Cmd) (h : Heap) (hex : ExcludedHistory cs = false)
     (hr : run Cfg.code Heap.empty cs = some h) (o : Nat) :
     o ∈ reachable h ↔ Reach h o :=
-  mem_reachable_iff (run_WF cs hex WF.empty hr) o
+  mem_reachable_iff (code_invariants cs h hex hr).1 o
+
+/-- **reachable_refcount_pos.** Reference counts: an object the program can reach — a backend array, a storage, a view,
+an external NumPy array or SciPy matrix given as input or handed back as output — has a positive reference count
+(references held by the program + references from objects not yet finalised), so reference counting does not release it. -/
+theorem reachable_refcount_pos (cs : List Cmd) (h : Heap) (hex : ExcludedHistory cs = false)
+    (hr : run Cfg.code Heap.empty cs = some h) (o : Nat) (ho : Reach h o) : 0 < refcount h o :=
+  refcount_pos_of_reach (code_invariants cs h hex hr).1 ho
 
 /-- the full statement: no history at all leaves a reachable object over a released buffer, and no
 buffer is released twice -/
@@ -407,9 +428,9 @@ def aliasWitness : List Cmd :=
    .opAliased 3, .mkArray 4, .drop 4,                                          -- r = reshape(x, x.shape)
    .drop 5, .finalize 5, .finalize 4]                                          -- del r
 
-/-- **no_dangling_counterexample.** The code violates the full statement: a rank-1 `reshape` returns
-an owning storage over its operand's buffer; deleting the result releases the input's buffer while
-the operand is still reachable (use after free), and deleting the input releases it again
+/-- **no_dangling_counterexample.** The full statement fails inside the excluded region: an owning result whose fields
+are its operand's buffers (what a rank-1 `reshape` returned before it was repaired in /repo); deleting the result releases
+the input's buffer while the operand is still reachable (use after free), and deleting the input releases it again
 (double free — glibc aborts the process). -/
 theorem no_dangling_counterexample : ¬ Statement_no_dangling := by
   intro h
@@ -424,15 +445,34 @@ theorem double_free_counterexample :
   refine ⟨_, rfl, ?_⟩
   decide
 
-/-- **no_dangling.** (partial: histories without the aliasing `reshape`) After ANY history of commands — creating arrays, views, storages from input
-arrays (`_hold_ref(storage, arr)`), results of add/reshape/asformat (`owns_memory=True`), the views
-of `get_constituent_arrays` (`_hold_ref(view, storage)`), dropping references in any order and
-finalising unreachable objects one at a time in any order — every buffer addressed by an object
-that the program can still reach has not been released. -/
+/-- **castview_counterexample.** The base walk of `get_constituent_arrays` is necessary.  For an element type the MLIR runtime
+re-views (complex64, complex128, float16) the array handed back is `raw.view(dtype)` and NumPy bases every further view on `raw`.
+In the variant WITHOUT the walk (`holdOnBaseRoot := false`: the keep-alive hangs on the re-view, as the code did before /repo
+d206752) `castWitness` — `t = to_numpy(add(x, x))`, the temporary dropped — runs to its end: the owning storage is finalised and
+releases buffer 0 while `t` (object 4) and the raw array (2) still address it.  For the code as it is (`Cfg.code`, the flag
+read off the source) the same history stops at its last command: after everything else the storage is still reachable
+(`t` → raw array → storage), there is nothing left to finalise and nothing dangles.  The second and third parts are about the
+generated flag: they stop checking when the walk is removed from the source. -/
+theorem castview_counterexample :
+    (run { Cfg.code with holdOnBaseRoot := false } Heap.empty castWitness).map (fun h => (reachable h, h.freed, dangling h))
+      = some ([4, 2], [0], [(4, 0), (2, 0)])
+    ∧ (run Cfg.code Heap.empty castWitness.dropLast).map (fun h => (reachable h, h.freed ++ garbage h, dangling h))
+      = some ([4, 2, 0], [], [])
+    ∧ run Cfg.code Heap.empty castWitness = none := by
+  decide
+
+/-- **no_dangling.** (partial: histories without an aliasing result) After ANY history of commands of the code as it is
+(`Cfg.code`, read off the source) — the program creating NumPy arrays and SciPy matrices, conversions building NON-OWNING
+storages over them (`_hold_ref(storage, arr)`), results of add/reshape/asformat (OWNING storages, `owns_memory=True`),
+the views of `get_constituent_arrays` of either kind (`_hold_ref(view, storage)`, for re-viewed element types on the array at
+the bottom of the base chain: `rawField` / `castView`), NumPy views of those (`to_numpy`),
+SciPy matrices over them (`to_scipy`), further references, dropping references to inputs, arrays and outputs in any
+order and finalising unreachable objects one at a time in any order — every buffer addressed by an object that the
+program can still reach has not been released. -/
 theorem no_dangling (cs : List Cmd) (h : Heap) (hex : ExcludedHistory cs = false)
     (hr : run Cfg.code Heap.empty cs = some h)
     (o : Nat) (ho : Reach h o) (b : Nat) (hb : b ∈ (h.obj o).bufs) : b ∉ h.freed := by
-  have hw : WF h := run_WF cs hex WF.empty hr
+  have hw : WF h := (code_invariants cs h hex hr).1
   obtain ⟨w, hp, hwo⟩ := hw.keeps_owner o b hb
   have hrw : Reach h w := ho.path hp
   intro hf
@@ -443,7 +483,7 @@ theorem no_dangling (cs : List Cmd) (h : Heap) (hex : ExcludedHistory cs = false
 /-- the executable form the driver evaluates: the list of (reachable object, released buffer) is empty -/
 theorem no_dangling_exec (cs : List Cmd) (h : Heap) (hex : ExcludedHistory cs = false)
     (hr : run Cfg.code Heap.empty cs = some h) : dangling h = [] := by
-  have hw : WF h := run_WF cs hex WF.empty hr
+  have hw : WF h := (code_invariants cs h hex hr).1
   unfold dangling
   rw [List.flatMap_eq_nil_iff]
   intro o ho
@@ -451,20 +491,53 @@ theorem no_dangling_exec (cs : List Cmd) (h : Heap) (hex : ExcludedHistory cs = 
   intro b hb hc
   exact no_dangling cs h hex hr o ((mem_reachable_iff hw o).mp ho) b hb (List.contains_iff_mem.mp hc)
 
+/-- **view_reaches_allocation.** The invariant behind `no_dangling`, for BOTH kinds of storage.  After any history of the
+code as it is, a view `v` (an array of `get_constituent_arrays`, hence also what `to_numpy` / `to_scipy` hand back) that
+the program can still reach is a view of a storage `s` which it keeps alive, and for every buffer `b` it addresses:
+* if `s` is OWNING (`owns_memory=True`: add / reshape / asformat), `s` itself is the allocation, it has not been finalised
+  and `b` has not been released;
+* if `s` is NON-OWNING (built from NumPy / SciPy input, user buffers, `copy()`, `asarray(copy=True)`), `s` keeps alive a
+  source array `r` it was built from, from which a chain of keep-alive edges leads to the allocation `w` of `b` — an
+  EXTERNAL object (a NumPy array that owns its buffer, or an owning storage), different from `s`, not finalised — and `b`
+  has not been released, whether or not the program still holds any reference of its own to the sources. -/
+theorem view_reaches_allocation (cs : List Cmd) (h : Heap) (hex : ExcludedHistory cs = false)
+    (hr : run Cfg.code Heap.empty cs = some h)
+    (v : Nat) (hv : (h.obj v).kind = .view) (hlive : Reach h v) (b : Nat) (hb : b ∈ (h.obj v).bufs) :
+    ∃ s, (h.obj v).refs = [s] ∧ (h.obj s).kind = .storage ∧ b ∈ (h.obj s).bufs ∧ s ∉ h.dead ∧ b ∉ h.freed ∧
+      ((h.obj s).om = true → b ∈ (h.obj s).owns) ∧
+      ((h.obj s).om = false → ∃ r ∈ (h.obj s).refs, ∃ w, Path h r w ∧ w ≠ s ∧ b ∈ (h.obj w).owns ∧ w ∉ h.dead ∧
+          (((h.obj w).kind = .ndarray ∧ (h.obj w).refs = []) ∨ ((h.obj w).kind = .storage ∧ (h.obj w).om = true))) := by
+  obtain ⟨hw, hsh⟩ := code_invariants cs h hex hr
+  obtain ⟨s, hrefs, _, hks, hsub⟩ := hsh.view_of v hv
+  have hrs : Reach h s := Reach.step hlive (by rw [hrefs]; simp)
+  have hbs : b ∈ (h.obj s).bufs := hsub b hb
+  refine ⟨s, hrefs, hks, hbs, hw.reach_alive s hrs, no_dangling cs h hex hr v hlive b hb, ?_, ?_⟩
+  · intro hom
+    rw [hsh.owning s hks hom]; exact hbs
+  · intro hom
+    obtain ⟨hno, hsrc⟩ := hsh.nonowning s hks hom
+    obtain ⟨r, hr', _, hbr⟩ := hsrc b hbs
+    obtain ⟨w, hp, hwo⟩ := hw.keeps_owner r b hbr
+    have hrw : Reach h w := (Reach.step hrs hr').path hp
+    refine ⟨r, hr', w, hp, ?_, hwo, hw.reach_alive w hrw, hsh.owner_kind w b hwo⟩
+    intro e
+    rw [e, hno] at hwo
+    cases hwo
+
 /-- **no_double_free.** No buffer is released twice, and a buffer is released only by the
 finalisation of its unique owner. -/
 theorem no_double_free (cs : List Cmd) (h : Heap) (hex : ExcludedHistory cs = false)
     (hr : run Cfg.code Heap.empty cs = some h) :
     h.freed.Nodup ∧ ∀ b ∈ h.freed, ∃ w, w ∈ h.dead ∧ b ∈ (h.obj w).owns :=
-  let hw := run_WF cs hex WF.empty hr
+  let hw := (code_invariants cs h hex hr).1
   ⟨hw.freed_nodup, hw.freed_owner⟩
 
 /-- **no_leak.** Every buffer owned by a finalised object has been released (results of
-add/reshape/asformat own their buffers). -/
+add/reshape/asformat own their buffers; external NumPy arrays release theirs). -/
 theorem no_leak (cs : List Cmd) (h : Heap) (hex : ExcludedHistory cs = false)
     (hr : run Cfg.code Heap.empty cs = some h)
     (w : Nat) (hw : w ∈ h.dead) (b : Nat) (hb : b ∈ (h.obj w).owns) : b ∈ h.freed :=
-  (run_WF cs hex WF.empty hr).dead_freed w hw b hb
+  (code_invariants cs h hex hr).1.dead_freed w hw b hb
 
 /-- **inputs_not_written.** No command of the library — conversions, operations, views, deletions,
 finalisations, in any order and for any `_hold_ref` configuration — changes the contents of a buffer
@@ -475,17 +548,27 @@ theorem inputs_not_written (cfg : Cfg) (cs₁ cs₂ : List Cmd) (h₁ h₂ : Hea
   have hl : h₁.cont.length = h₁.nbuf := (run_frame cfg cs₁ (h := Heap.empty) rfl h1).1
   exact (run_frame cfg cs₂ hl h2).2.2 b hb
 
-/-- **hold_ref_needed.** Each of the two `_hold_ref` calls is necessary: without
-`_hold_ref(storage, arr)` deleting the input array leaves a reachable `Array` over a released
-buffer; without `_hold_ref(view, storage)` deleting the result `Array` leaves a reachable view over
-a released buffer. -/
-theorem hold_ref_needed :
-    (∃ cs h, run { holdInputs := false, holdStorage := true } Heap.empty cs = some h ∧ dangling h ≠ [])
-    ∧ (∃ cs h, run { holdInputs := true, holdStorage := false } Heap.empty cs = some h ∧ dangling h ≠ []) := by
-  refine ⟨⟨[.newArray 7, .mkStorage [0], .mkArray 1, .drop 1, .drop 0, .finalize 0], ?_⟩,
-          ⟨[.opStorage [1, 2, 3], .mkArray 0, .drop 0, .view 1 2, .drop 1, .finalize 1, .finalize 0], ?_⟩⟩
-  · refine ⟨_, rfl, ?_⟩; decide
-  · refine ⟨_, rfl, ?_⟩; decide
+/-- **hold_ref_needed.** The code's configuration is the ONLY safe one: for every other choice of which `_hold_ref` loops
+run (for which kind of storage), of where the keep-alive of a re-viewed array hangs, and of which storage class the conversions build, there is a history with no aliasing
+result — an object graph and a deletion order, `edgeWitness` — after which the program still reaches an object over a
+released buffer.  In particular every edge the code makes is necessary, for owning AND for non-owning storages. -/
+theorem hold_ref_needed (cfg : Cfg) (hne : cfg ≠ Cfg.code) :
+    ∃ h, ExcludedHistory (edgeWitness cfg) = false ∧ run cfg Heap.empty (edgeWitness cfg) = some h ∧ dangling h ≠ [] := by
+  rw [code_has_every_edge] at hne
+  obtain ⟨a, b, c, d, e⟩ := cfg
+  cases a <;> cases b <;> cases c <;> cases d <;> cases e <;>
+    first
+      | exact absurd rfl hne
+      | exact ⟨_, by decide, rfl, by decide⟩
+
+/-- **nonowning_view_edge_counterexample.** The variant in which only views of OWNING storages keep their storage alive
+(`if owns_memory: for arr in arrays: _hold_ref(arr, self)`): build an array from a NumPy input, take a constituent array,
+delete the input and the backend array — the view (object 3) is still reachable and addresses buffer 0, which the
+finalisation of the input array has released. -/
+theorem nonowning_view_edge_counterexample :
+    (run { Cfg.full with holdViewNonOwning := false } Heap.empty
+        [.newArray 7, .mkStorage [0], .mkArray 1, .drop 1, .view 2 0, .drop 0, .drop 2, .finalize 2, .finalize 1, .finalize 0]).map
+      (fun h => (reachable h, h.freed, dangling h)) = some ([3], [0], [(3, 0)]) := by decide
 
 /-! ## non-vacuity -/
 
@@ -517,5 +600,30 @@ example : determineFormat
 deleted: the view still reaches its buffer, which is not released -/
 example : (run Cfg.code Heap.empty [.newArray 7, .mkStorage [0], .mkArray 1, .drop 1, .view 2 0, .drop 0, .drop 2, .finalize 2]).map
     (fun h => (reachable h, h.freed, dangling h)) = some ([3, 1, 0], [], []) := by decide
+
+/-- a SciPy round trip with every reference of the program to the sources dropped: the input matrix (object 3, over the
+arrays 0-2), `x = asarray(S)` (non-owning storage 4, array 5), `T = to_scipy(x)` (views 6-8, matrix 9), then `del S`,
+`del x`: only `T` is held; its arrays still reach the three source buffers (reference counts: source 0 is referenced by the
+storage alone, the storage by the three views), nothing has been released and nothing dangles -/
+example : (run Cfg.code Heap.empty [.newArray 1, .newArray 2, .newArray 3, .mkScipy [0, 1, 2], .drop 0, .drop 1, .drop 2,
+    .mkStorage [0, 1, 2], .mkArray 4, .drop 4, .view 5 0, .view 5 1, .view 5 2, .mkScipy [8, 7, 6], .drop 6, .drop 7, .drop 8,
+    .drop 3, .drop 5, .finalize 5, .finalize 3]).map
+    (fun h => (reachable h, h.freed ++ garbage h, dangling h, [refcount h 0, refcount h 4]))
+    = some ([9, 8, 7, 6, 4, 2, 1, 0], [], [], [1, 3]) := by decide
+
+/-- with the base walk the two commands for a re-viewed constituent array ARE `view` + `npView`: the same history written with
+either pair reaches the same heap, and it is not an excluded history -/
+example : ExcludedHistory castWitness = false ∧
+    run Cfg.code Heap.empty castWitness.dropLast
+      = run Cfg.code Heap.empty [.opStorage [1], .mkArray 0, .drop 0, .view 1 0, .npView 2, .npView 3, .drop 2, .drop 3, .finalize 3,
+          .drop 1, .finalize 1] := by
+  decide
+
+/-- the hypotheses of `hold_ref_needed` are satisfiable, and its witness for the variant of the seeded kind is the
+numpy-input history -/
+example : ({ Cfg.full with holdViewNonOwning := false } : Cfg) ≠ Cfg.code ∧
+    edgeWitness { Cfg.full with holdViewNonOwning := false }
+      = [.newArray 7, .mkStorage [0], .mkArray 1, .drop 1, .view 2 0, .drop 0, .drop 2, .finalize 2, .finalize 1, .finalize 0] := by
+  decide
 
 end SparseV.C20
